@@ -187,8 +187,12 @@ def decide(prop, tier, seed):
     ev = {
         "property_id": prop, "tier": tier, "seed": seed, "level": level,
         "coverage": {
-            "obligations": len(obs), "discharged": len(discharged),
-            "discharged_unbounded": len(proved), "discharged_bounded_standins": len(bounded),
+            # proof obligations proper: bounded stand-ins are reported separately and never counted as proved
+            "obligations": len([o for o in obs if not o.get("bounded")]) if level == "proof" else len(obs),
+            "discharged": len(proved) if level == "proof" else len(discharged),
+            "bounded_standin_obligations": len([o for o in obs if o.get("bounded")]),
+            "bounded_standins_passed": len(bounded),
+            "bounds": sorted(set(o["bounded"] for o in obs if o.get("bounded"))),
             "failed": len([o for o in obs if o["status"] == "failed"]),
             "undecided": len([o for o in obs if o["status"] == "undecided"]),
             "checker_cmd": "; ".join(sorted(set(r.get("checker_cmd", "") for r in results if r.get("checker_cmd")))),
